@@ -79,7 +79,10 @@ class Interp:
         self._inj = None
         self._unit_new_code = measured.Unit.__new__.__code__
         self._known_len_at_call = 0
-        self.clauses = make_clauses(prop, self)
+        self.clauses = self.make_clauses()
+
+    def make_clauses(self):
+        return make_clauses(self.prop, self)
 
     # ------------------------------------------------------------ tracing
     # One global trace function serves both the creator log (which library
